@@ -86,7 +86,7 @@ extern "C" int string_threads()
 {
   {
     StrJob a, b;
-    a.h = String("ab", 2).append('c');            // owned payload "abc"
+    a.h = String((usize)8); a.h.append("abc", 3);  // owned payload "abc" with spare capacity (an in-place append is possible)
     b.h = a.h;                                    // second handle to the same payload
     String mainHandle(a.h);                       // third handle kept by the main thread
     a.elen = b.elen = 3; for(unsigned i = 0; i < 3; ++i) a.expect[i] = b.expect[i] = "abc"[i];
